@@ -129,6 +129,10 @@ type FuncCtx struct {
 	specErrs      []string
 	pendingAxioms bool
 	lastCalleeGhosts map[string]Term
+	inlineSite string
+	fvTArgs    map[string]*Sort
+	fvSig      *types.Signature
+	inlineRef  *FuncRef
 	Deps          map[string]bool
 }
 
